@@ -31,7 +31,7 @@ ASSUMPTIONS = [
     "float values are compared numerically (rel 1e-4); cases where an intermediate float is not float32-exact are discarded (counted)",
 ]
 
-PROFILE = gs.Profile(name="core", off=set(gs.DEFAULT_OFF))
+PROFILE = gs.Profile(name="core", off=set(gs.DEFAULT_OFF), hostile_strings=True)   # printable literals with quotes, backslashes, #, %: they are printed, so the line lexer and the escaper both show
 
 tape_st = st.fixed_dictionaries({
     "digital": st.fixed_dictionaries({8: st.lists(st.integers(0, 1), max_size=6), 9: st.lists(st.integers(0, 1), max_size=6)}),
